@@ -2001,6 +2001,8 @@ class tensor:
         """
         X = self.data
         if not isinstance(other, (float, int)):
+            if self.shape != other.shape:
+                assert False, "Tensors must be the same shape"
             Y = other.data
         else:
             Y = np.array(other, order=self.order)
